@@ -107,6 +107,8 @@ def exec_nav(job):
 
 
 def exec_job(job):
+    if job.get("big"):
+        c03.single_thread_blas()
     if job["kind"] == "retrieve_big":
         return exec_retrieve_big(job)
     return exec_nav(job) if job["kind"] == "nav" else exec_retrieve(job)
@@ -301,33 +303,32 @@ def big_jobs(ctx, rng):
     two components or not, directed or not, natural or shuffled numbering; lengths {1,2,3}, a single
     value, or a wide set whose path totals leave the exact range of float32; 'inv' weights down to
     2^-20; argument dtypes incl. int8/int16/uint8 where distance_wei_floyd converts to float first.
-    retrieve_shortest_path for 6 drawn sources (always the first and the last node) x all targets;
-    navigation_wu on 130..160 nodes with the line metric of the nodes' positions (every greedy
-    navigation then makes progress: paths of up to n-1 hops)."""
+    Every run has an uncut long chain (paths of more than 127 hops) and a wide-length input
+    (c03.big_inputs).  retrieve_shortest_path for up to 7 sources (first / last node of the numbering
+    and of the construction, 3 drawn ones) x all targets; navigation_wu on 130..160 nodes (first an uncut chain) with a line metric
+    of drawn node positions or of the numbering itself (paths of up to n-1 hops)."""
     q = ctx.quick
     jobs = []
     sizes = [(130, 160), (161, 256), (257, 300)] if q else [(130, 160), (161, 256), (257, 300), (301, 400)] * 4
-    for lo, hi in sizes:
-        name, n, edges, und = c03.big_support(rng, lo, hi)
-        mode = rng.choice(["len", "len", "inv", "bin"])
-        codes = rng.choice(c03.BIG_CODES[mode])
-        K = c03.code_matrix(rng, n, edges, und, mode, codes=codes)
+    for name, n, und, mode, codes, K, srcs in c03.big_inputs(rng, sizes):
         dt, lay = c03.big_dtype(rng, mode, codes, c03.TRANSFORM[mode] is None)
         tr = {"bin": "none", "len": "none", "inv": "inv"}[mode]
         jobs.append(dict(fn="retrieve_shortest_path:" + tr, kind="retrieve_big", mode=mode, K=K,
-                         src_kind="big-" + name, srcs=sorted(set([0, n - 1] + rng.sample(range(n), 4))),
+                         src_kind="big-" + name, srcs=srcs,
                          dtype=c03.arg_dtype("distance_wei_floyd", dt, mode), layout=lay,
                          out_layout=rng.randrange(2), big=1))
-    for k in range(1 if q else 4):
-        name, n, edges, _ = c03.big_support(rng, 130, 160, und=True, p_split=0.15)
+    for k in range(1 if q else 6):                      # the first one an uncut chain: up to n-1 > 127 hops
+        name, n, edges, _, pos = c03.big_support(rng, 130, 140 if k == 0 else 160, und=True, p_split=0.15, want_pos=True,
+                                                 kinds=("longchain",) if k == 0 else c03.BIG_KINDS)
         tree = is_forest(n, edges)
         L = len_matrix(rng, n, edges, True)
-        order = list(range(n))
-        rng.shuffle(order)                              # position of node i on the line
-        Dm = [[abs(order[i] - order[j]) for j in range(n)] for i in range(n)]
-        if "shuffled" not in name and rng.random() < 0.5:
-            Dm = hop_dist(n, None)                      # the numbering itself as the embedding
-        maxh = -1 if tree and rng.random() < 0.7 else rng.choice([n - 1, n, 2 * n])
+        if k > 0 and rng.random() < 0.4:                # unrelated positions: most navigations fail
+            pos = list(range(n))
+            rng.shuffle(pos)
+        # line metric of the nodes' positions in the construction (chain: the hop metric itself, every
+        # navigation arrives; ring / grid / clique + path: progress along the numbering)
+        Dm = [[abs(pos[i] - pos[j]) for j in range(n)] for i in range(n)]
+        maxh = -1 if tree and rng.random() < 0.7 else rng.choice([n - 1, n, n + 20])
         jobs.append(dict(nav_variant(rng, L, Dm, maxh, "big-" + name), big=1))
     return jobs
 
@@ -373,7 +374,7 @@ def run(ctx):
                 "window, strided), hops/Pmat also passed on Fortran-ordered; all choices drawn from the seeded RNG; "
                 "scale regime: %d networks of 130..%d nodes (rings with chords, long chains, clique + path, "
                 "grids; two components; directed; int8/int16/uint8 arguments; lengths up to 2^20) with "
-                "retrieve_shortest_path for 6 drawn sources x all targets, and navigation_wu on 130..160 nodes "
+                "retrieve_shortest_path for up to 7 sources x all targets, and navigation_wu on 130..160 nodes "
                 "with a line metric; "
                 "non-trivial = distinct input with a returned path of >= 3 "
                 "nodes (navigation: and at least one failed pair)"
@@ -405,7 +406,7 @@ def run(ctx):
         "a navigation counts as succeeded when its reported hop count is finite",
         "scale-regime records (more than 20 nodes) are judged by the same clauses with 'unreachable' decided by "
         "breadth-first search over the input's connections (Distance!ReachFrom, cross-checked against Dist by "
-        "mc: FastOracleInv); retrieve_shortest_path is called there for 6 RNG-drawn sources x all targets; no "
+        "mc: FastOracleInv); retrieve_shortest_path is called there for up to 7 sources (ends + RNG-drawn) x all targets; no "
         "drift prediction for them"]
     return ctx.finish()
 
